@@ -1,5 +1,6 @@
 import VncModel.Client.TileLen
 import VncModel.Client.RefineHex2
+import VncModel.Client.Requests
 /-!
 Refinement of `HandleTRLE` (trle.c) to `Spec.decodeTRLE`: every tile sub-encoding including the
 palette reuse (127 / 129) with the `last_type` bookkeeping, then the tile loop and the assembly.
@@ -341,10 +342,11 @@ theorem trleTile_refines (cp : CPix) (rawBuf : Nat) (fb : FB) (st : TrleSt) (x y
               have a4 : prev.length ≤ 16 := hlen.2
               simp only [a1, a2, a3, if_false, if_true, emod, a4]
               have hpb := packBits_eq hlen.1 hlen.2
-              rw [trlePacked_refines _ hbc fb _ x y tw th prev (by simp [hpb]) hag bs p r hd]
-              refine ⟨_, rfl, ?_, hpalsz⟩
+              have := trlePacked_refines _ hbc fb ⟨prev.length, st.pal, packBits prev.length, st.color⟩ x y tw th prev
+                hpb hag bs p r hd
+              refine ⟨⟨prev.length, st.pal, packBits prev.length, st.color⟩, this, ?_, hpalsz⟩
               rw [hsa]
-              exact Or.inr ⟨h2, hag, Or.inl ⟨rfl, a4, by simp [hpb]⟩⟩
+              exact Or.inr ⟨h2, hag, Or.inl ⟨rfl, a4, hpb⟩⟩
       · simp [hlen] at hsp
     · simp only [h127, if_false] at hsp ⊢
       by_cases h129 : m.toNat = 129
@@ -465,7 +467,7 @@ theorem trleTile_refines (cp : CPix) (rawBuf : Nat) (fb : FB) (st : TrleSt) (x y
                 obtain ⟨arr', rem'⟩ := rp
                 simp only at hag hsz ⊢
                 rw [trlePaletteRLE_refines pal arr' hag (rawBuf - 1) _ _ _ _ _ hb2 hd]
-                refine ⟨_, by simp [writeDirect_eq_blit], ?_, hsz⟩
+                refine ⟨⟨m.toNat, arr', st.bpp, st.color⟩, by simp [writeDirect_eq_blit], ?_, hsz⟩
                 have hsa : trleStrictAfter m.toNat pal = pal := by simp [trleStrictAfter, c1]
                 rw [hsa]
                 exact Or.inr ⟨by omega, hag, Or.inr ⟨by simp [hplen]; omega, by omega⟩⟩
@@ -497,7 +499,7 @@ theorem trleTile_refines (cp : CPix) (rawBuf : Nat) (fb : FB) (st : TrleSt) (x y
                     simp only [hp, Option.map_some, Option.some.injEq, Prod.mk.injEq] at hz
                     obtain ⟨e1, e2⟩ := hz
                     subst e1 e2
-                    refine ⟨_, by simp [fillRectangle_eq_blit fb x y tw th c hW hH], ?_, hpalsz⟩
+                    refine ⟨⟨1, st.pal, st.bpp, c⟩, by simp [fillRectangle_eq_blit fb x y tw th c hW hH], ?_, hpalsz⟩
                     exact Or.inl (by simp [trleStrictAfter])
                 · simp only [h1, if_false] at hz ⊢
                   have c16 : ¬ (m.toNat ≤ 16) := by omega
@@ -512,5 +514,183 @@ theorem trleTile_refines (cp : CPix) (rawBuf : Nat) (fb : FB) (st : TrleSt) (x y
                   · simp only [h128, if_false] at hz
                     have : ¬ (m.toNat ≥ 130) := h130
                     simp [this] at hz
+
+end VncModel.Client
+
+namespace VncModel.Client
+open VncModel.Enc.Spec
+open VncModel.Gen.C07
+
+/-! ### tile loop, lengths, assembly -/
+
+theorem decodeTRLETile_length {cp : CPix} {tw th : Nat} {prev prev' : List Pixel} {bs r : Bytes} {px : List Pixel}
+    (h : decodeTRLETile cp tw th prev bs = some ((px, prev'), r)) : px.length = tw * th := by
+  cases bs with
+  | nil => simp [decodeTRLETile] at h
+  | cons m bs =>
+    simp only [decodeTRLETile] at h
+    split at h
+    · split at h
+      · cases hd : decodePackedRows (packedBits prev.length) tw prev th bs with
+        | none => simp [hd] at h
+        | some q =>
+          obtain ⟨p, r'⟩ := q
+          simp only [hd, Option.map_some, Option.some.injEq, Prod.mk.injEq] at h
+          rw [← h.1.1]; exact decodePackedRows_length hd
+      · simp at h
+    · split at h
+      · split at h
+        · cases hd : decodePaletteRLE prev (tw * th) (tw * th) bs with
+          | none => simp [hd] at h
+          | some q =>
+            obtain ⟨p, r'⟩ := q
+            simp only [hd, Option.map_some, Option.some.injEq, Prod.mk.injEq] at h
+            rw [← h.1.1]; exact decodePaletteRLE_length hd
+        · simp at h
+      · split at h
+        · cases hpal : readCPixels cp m.toNat bs with
+          | none => simp [hpal] at h
+          | some q =>
+            obtain ⟨pal, bs1⟩ := q
+            simp only [hpal] at h
+            cases hd : decodePackedRows (packedBits m.toNat) tw pal th bs1 with
+            | none => simp [hd] at h
+            | some q2 =>
+              obtain ⟨p, r'⟩ := q2
+              simp only [hd, Option.map_some, Option.some.injEq, Prod.mk.injEq] at h
+              rw [← h.1.1]; exact decodePackedRows_length hd
+        · split at h
+          · cases hpal : readCPixels cp (m.toNat - 128) bs with
+            | none => simp [hpal] at h
+            | some q =>
+              obtain ⟨pal, bs1⟩ := q
+              simp only [hpal] at h
+              cases hd : decodePaletteRLE pal (tw * th) (tw * th) bs1 with
+              | none => simp [hd] at h
+              | some q2 =>
+                obtain ⟨p, r'⟩ := q2
+                simp only [hd, Option.map_some, Option.some.injEq, Prod.mk.injEq] at h
+                rw [← h.1.1]; exact decodePaletteRLE_length hd
+          · have em : UInt8.ofNat m.toNat = m := by simp
+            rw [em] at h
+            cases hz : decodeZRLETile cp tw th (m :: bs) with
+            | none => simp [hz] at h
+            | some q =>
+              obtain ⟨p, r'⟩ := q
+              simp only [hz, Option.map_some, Option.some.injEq, Prod.mk.injEq] at h
+              rw [← h.1.1]; exact decodeZRLETile_length hz
+
+theorem strictTrleTiles_lengths (cp : CPix) :
+    ∀ (ts : List TileRect) (prev : List Pixel) (bs : Bytes) (pxs : List (List Pixel)) (rest : Bytes),
+      decodeTRLETilesStrict cp ts prev bs = some (pxs, rest) →
+      pxs.length = ts.length ∧
+      ∀ j (h1 : j < ts.length) (h2 : j < pxs.length), (pxs[j]).length = (ts[j]).w * (ts[j]).h := by
+  intro ts
+  induction ts with
+  | nil =>
+    intro prev bs pxs rest h
+    simp only [decodeTRLETilesStrict, Option.some.injEq, Prod.mk.injEq] at h
+    rw [← h.1]; simp
+  | cons t ts ih =>
+    intro prev bs pxs rest h
+    simp only [decodeTRLETilesStrict] at h
+    cases ht : decodeTRLETile cp t.w t.h prev bs with
+    | none => simp [ht] at h
+    | some q =>
+      obtain ⟨⟨px, pal⟩, bs'⟩ := q
+      simp only [ht] at h
+      cases hr : decodeTRLETilesStrict cp ts (trleStrictAfter (bs.headD 0).toNat pal) bs' with
+      | none => rw [hr] at h; simp at h
+      | some q2 =>
+        obtain ⟨restpx, r'⟩ := q2
+        rw [hr] at h
+        simp only [Option.map_some, Option.some.injEq, Prod.mk.injEq] at h
+        obtain ⟨e1, e2⟩ := h
+        subst e1 e2
+        obtain ⟨l1, l2⟩ := ih _ _ _ _ hr
+        refine ⟨by simp [l1], ?_⟩
+        intro j h1 h2
+        cases j with
+        | zero => simpa using decodeTRLETile_length ht
+        | succ j =>
+          simp only [List.getElem_cons_succ]
+          exact l2 j (by simpa using h1) (by simpa using h2)
+
+theorem trleTiles_refines (cp : CPix) (rawBuf rx ry rw rh : Nat) (hraw : cp.size + 3 ≤ rawBuf) :
+    ∀ (ts : List TileRect) (fb : FB) (prev : List Pixel) (st : TrleSt) (bs : Bytes)
+      (pxs : List (List Pixel)) (rest : Bytes),
+      (∀ t ∈ ts, t.x + t.w ≤ rw ∧ t.y + t.h ≤ rh ∧ t.w * t.h ≤ 256) → rx + rw ≤ fb.w → ry + rh ≤ fb.h →
+      TrleRel prev st → st.pal.size = trlePaletteCells →
+      decodeTRLETilesStrict cp ts prev bs = some (pxs, rest) →
+      trleTiles cp rawBuf rx ry ts fb st bs = some (blitTiles fb rx ry ts pxs, rest) := by
+  intro ts
+  induction ts with
+  | nil =>
+    intro fb prev st bs pxs rest _ _ _ _ _ h
+    simp only [decodeTRLETilesStrict, Option.some.injEq, Prod.mk.injEq] at h
+    simp [trleTiles, blitTiles, ← h.1, ← h.2]
+  | cons t ts ih =>
+    intro fb prev st bs pxs rest hts hW hH hR hsz h
+    simp only [decodeTRLETilesStrict] at h
+    cases ht : decodeTRLETile cp t.w t.h prev bs with
+    | none => simp [ht] at h
+    | some q =>
+      obtain ⟨⟨px, pal⟩, bs'⟩ := q
+      simp only [ht] at h
+      have hin := hts t (by simp)
+      have hbud : t.w * t.h / 255 + cp.size + 2 ≤ rawBuf := by
+        have : t.w * t.h / 255 ≤ 1 := by
+          have := hin.2.2
+          omega
+        omega
+      obtain ⟨st', e1, hR', hsz'⟩ := trleTile_refines cp rawBuf fb st (rx + t.x) (ry + t.y) t.w t.h prev bs px pal bs'
+        hR (by omega) (by omega) hsz hbud ht
+      cases hr : decodeTRLETilesStrict cp ts (trleStrictAfter (bs.headD 0).toNat pal) bs' with
+      | none => rw [hr] at h; simp at h
+      | some q2 =>
+        obtain ⟨restpx, r'⟩ := q2
+        rw [hr] at h
+        simp only [Option.map_some, Option.some.injEq, Prod.mk.injEq] at h
+        obtain ⟨e2, e3⟩ := h
+        subst e2 e3
+        have := ih (blit fb (rx + t.x) (ry + t.y) t.w t.h px) _ st' bs' restpx r'
+          (fun t' ht' => hts t' (by simp [ht'])) (by rw [blit_w]; exact hW) (by rw [blit_h]; exact hH) hR' hsz' hr
+        simp [trleTiles, e1, this, blitTiles]
+
+theorem tileGrid_area_le {T : Nat} (g : Geometry) : ∀ t ∈ tileGrid T g, t.w * t.h ≤ T * T := by
+  intro t ht
+  simp only [tileGrid, List.mem_map, List.mem_range] at ht
+  obtain ⟨k, _, rfl⟩ := ht
+  exact Nat.mul_le_mul (Nat.min_le_left _ _) (Nat.min_le_left _ _)
+
+/-- **TRLE, whole rectangle**: on every stream the strict decoder accepts (on which
+`Spec.decodeTRLE` yields the same pixels) `HandleTRLE` returns TRUE with the same rest and the
+rectangle holds exactly the decoded pixels.  `hraw`: `raw_buffer_size` after the adjustment at the
+top of `HandleTRLE` (`trleRawBuf`, at least `16·16·cpixel·2`). -/
+theorem clientTRLE_refines_spec (cp : CPix) (rawBuf : Nat) (fb : FB) (rx ry rw rh : Nat) (bs : Bytes)
+    (px : List Pixel) (rest : Bytes) (hraw : cp.size + 3 ≤ rawBuf)
+    (hW : rx + rw ≤ fb.w) (hH : ry + rh ≤ fb.h)
+    (hsp : decodeTRLEStrict ⟨rw, rh⟩ cp bs = some (px, rest)) :
+    clientTRLE cp rawBuf fb rx ry rw rh bs = some (blit fb rx ry rw rh px, rest) ∧
+    decodeTRLE ⟨rw, rh⟩ cp bs = some (px, rest) := by
+  refine ⟨?_, strictTrle_implies_spec _ _ _ _ _ hsp⟩
+  simp only [decodeTRLEStrict] at hsp
+  cases ht : decodeTRLETilesStrict cp (tileGrid 16 ⟨rw, rh⟩) [] bs with
+  | none => simp [ht] at hsp
+  | some q =>
+    obtain ⟨pxs, r'⟩ := q
+    simp only [ht, Option.map_some, Option.some.injEq, Prod.mk.injEq] at hsp
+    obtain ⟨e1, e2⟩ := hsp
+    subst e1 e2
+    obtain ⟨l1, l2⟩ := strictTrleTiles_lengths cp _ _ _ _ _ ht
+    have hts : ∀ t ∈ tileGrid 16 ⟨rw, rh⟩, t.x + t.w ≤ rw ∧ t.y + t.h ≤ rh ∧ t.w * t.h ≤ 256 := by
+      intro t htm
+      have a := mem_tileGrid (T := 16) (by decide) htm
+      have b := tileGrid_area_le (T := 16) ⟨rw, rh⟩ t htm
+      exact ⟨a.1, a.2, b⟩
+    have := trleTiles_refines cp rawBuf rx ry rw rh hraw _ fb [] {} bs pxs r' hts hW hH (Or.inl rfl)
+      (by simp [trlePaletteCells]) ht
+    simp only [clientTRLE, this]
+    rw [blitTiles_eq_blit_assemble (by decide) ⟨rw, rh⟩ fb rx ry pxs hW l1 l2]
 
 end VncModel.Client
